@@ -262,6 +262,23 @@ Definition keig_solve (constf : bool) (eig : seq (nat * mat * vec)) (ds : seq ve
 Definition sym_scaled (m : nat) (K : mat) (dv : vec) : mat :=
   mtab m m (fun i j => amul A (amul A (adiv A (a1 A) (asqrt A (vget dv i))) (get K i j)) (adiv A (a1 A) (asqrt A (vget dv j)))).
 
+(* ---------------------------------------------------------------- sum of two Kronecker products
+   SumKroneckerLinearOperator._solve for  kron A_i + kron C_i :
+       R_i = C_i.root_inv_decomposition().root     (Cholesky method: (L_i^-1)^T by solve_triangular(L_i, I); size 1: 1/sqrt)
+       inner = kron (R_i^T A_i R_i) + 1.0 * I      (a KroneckerProductAddedDiag with constant diagonal: eigen-shift, sigma = 1)
+       res = (kron R_i) inner.solve((kron R_i)^T rhs)
+   [unitv], [tri_inv_t]: the rows of (L^-1)^T are the columns of L^-1 = the solutions of L x = e_a *)
+Definition unitv (n a : nat) : vec := mkseq (fun i => if i == a then a1 A else a0 A) n.
+Definition tri_inv_t (n : nat) (L : mat) : mat := mkseq (fun a => tri_solve false n L (unitv n a)) n.
+Definition matmul (n : nat) (X Y : mat) : mat := mtab n n (fun i j => sumn_ (fun k => amul A (get X i k) (get Y k j)) n).
+(* rm.mT.matmul(lt).matmul(rm) *)
+Definition congr_t (n : nat) (R K : mat) : mat := matmul n (matmul n (trm n R) K) R.
+
+Definition sumkron_apply (Rs : seq (nat * mat)) (eig : seq (nat * mat * vec)) (c : nat) (X : cols) : cols :=
+  let rt := map (fun x => (x.1, matvec x.1 x.1 (trm x.1 x.2))) Rs in
+  let r := map (fun x => (x.1, matvec x.1 x.1 x.2)) Rs in
+  kron_apply r c (eigshift_solve eig (a1 A) c (kron_apply rt c X)).
+
 (* ---------------------------------------------------------------- block-diagonal layouts
    BlockDiag: _add_batch_dim = view(k, m, c): block b owns rows b*m … b*m+m-1
    BlockInterleaved: view(m, k, c).transpose: block b owns rows r*k + b                      *)
@@ -309,8 +326,19 @@ Record settings := MkSettings {
   memory_efficient : bool;            (* read by Solve.forward only to decide what to save for backward *)
   default_preconditioner : bool;      (* beta_features.default_preconditioner *)
   cholesky_jitter_exp : nat;          (* cholesky_jitter.value(dtype) = 10^-e  (defaults: 8 for double, 6 for float) *)
-  cholesky_max_tries : nat            (* cholesky_max_tries *)
+  cholesky_max_tries : nat;           (* cholesky_max_tries *)
+  max_root_decomposition_size : nat;  (* read by _root_decomposition_size(): the Lanczos budget of a root decomposition; on the
+                                         pinned tree it does NOT enter the choice of the root method *)
+  linalg_symeig_single : bool;        (* linalg_dtypes: _linalg_dtype_symeig is float32 (the eigen-structured solves of
+                                         KroneckerProductAddedDiag and every _symeig run in that dtype)  *)
+  linalg_cholesky_single : bool       (* linalg_dtypes: _linalg_dtype_cholesky is float32 (read by no solve path) *)
 }.
+
+(* LinearOperator._choose_root_method (no cached decomposition, fast_computations.covar_root_decomposition on):
+   the method root_inv_decomposition() uses for an operator of size n *)
+Inductive root_method := RootCholesky | RootLanczos.
+Definition choose_root_method (s : settings) (n : nat) : root_method :=
+  if n <= max_cholesky_size s then RootCholesky else RootLanczos.
 
 Inductive diag_kind :=
 | DConst      (* ConstantDiagLinearOperator *)
@@ -333,13 +361,14 @@ Inductive cls :=
 | CBlockDiag (k : nat) (base : cls)
 | CBlockInterleaved (k : nat) (base : cls)
 | CBatchRepeat (base : cls)
-| CPermutation (n : nat).
+| CPermutation (n : nat)
+| CSumKron (fs : seq cls).     (* SumKroneckerLinearOperator: kron A_i + kron C_i; fs = the classes of the C_i (same sizes as the A_i) *)
 
 Fixpoint csize (c : cls) : nat :=
   match c with
   | CGeneric n | CAddedDiag n | CDiag n | CIdentity n | CChol n | CTriDense n | CPermutation n => n
   | CTriOver b | CBatchRepeat b => csize b
-  | CKron fs | CKronAddedDiag fs _ => foldr (fun f p => csize f * p) 1 fs
+  | CKron fs | CKronAddedDiag fs _ | CSumKron fs => foldr (fun f p => csize f * p) 1 fs
   | CLowRankRootAddedDiag n _ => n
   | CBlockDiag k b | CBlockInterleaved k b => k * csize b
   end.
@@ -358,7 +387,7 @@ Inductive cplan :=
 Fixpoint cholesky_plan (c : cls) : cplan :=
   match c with
   | CGeneric n | CAddedDiag n | CLowRankRootAddedDiag n _ | CPermutation n => if n == 1 then PScalar else PDense n
-  | CKronAddedDiag fs _ => let n := csize (CKron fs) in if n == 1 then PScalar else PDense n
+  | CKronAddedDiag fs _ | CSumKron fs => let n := csize (CKron fs) in if n == 1 then PScalar else PDense n
   | CDiag _ => PDiag
   | CIdentity _ => PIdentity
   | CChol _ => PRoot
@@ -381,7 +410,8 @@ Inductive method :=
 | MEigShift (sizes : seq nat)      (* KroneckerProductAddedDiag._solve, constant diagonal *)
 | MEigKron (constf : bool) (sizes : seq nat)   (* the same, Kronecker-structured diagonal (constant / general factors) *)
 | MBlocks (k : nat) (m : method)   (* Block*._solve: base_linear_op._solve on the blocked rhs *)
-| MPermT.                          (* permutation: inverse() @ rhs *)
+| MPermT                           (* permutation: inverse() @ rhs *)
+| MSumKron (sizes : seq nat).      (* SumKroneckerLinearOperator._solve: inverse roots of the C_i + eigen-shift of the inner matrix *)
 
 Section Select.
 Variable s : settings.
@@ -424,6 +454,7 @@ Fixpoint route (c : cls) : method * method :=
   | CBlockInterleaved k b => let cs := MBlocks k (route b).2 in (solve_fn c cs cs, cs)
   | CBatchRepeat b => let cs := MCG (default_preconditioner s) 0 in (solve_fn c cs cs, cs)
   | CPermutation n => let cs := MPermT in (solve_fn c cs cs, cs)
+  | CSumKron fs => let cs := MSumKron (map csize fs) in (solve_fn c cs cs, cs)
   end.
 
 Definition select_solve (c : cls) : method := (route c).1.
@@ -471,6 +502,16 @@ Fixpoint method_events (s : settings) (obs rbs bb : seq nat) (cc : nat) (c : cls
          end) ms fs
   | MEigShift sizes, _ => map (fun n => EEig (obs ++ [:: n; n])) sizes
   | MEigKron _ sizes, _ => map (fun n => EEig (obs ++ [:: n; n])) sizes      (* one symeig per factor *)
+  | MSumKron sizes, _ =>
+      (* root_inv_decomposition() of every C_i with the method _choose_root_method picks (Cholesky below max_cholesky_size:
+         one factorisation event, none for size 1; the Lanczos branch is the listed defect and has no event model), then
+         the eigen-shift of the inner Kronecker matrix: one symeig per factor *)
+      flatten (map (fun n => if n == 1 then [::] else
+                             match choose_root_method s n with
+                             | RootCholesky => [:: EChol (obs ++ [:: n; n])]
+                             | RootLanczos => [::]
+                             end) sizes)
+      ++ map (fun n => EEig (obs ++ [:: n; n])) sizes
   | MBlocks k m, (CBlockDiag _ b | CBlockInterleaved _ b) =>
       method_events s (obs ++ [:: k]) (rbs ++ [:: k]) (bb ++ [:: k]) cc b m
   | MTriViaBase m, CTriOver b => method_events s obs rbs bb cc b m
@@ -507,7 +548,10 @@ Inductive opd :=
                                                (* Kron(fs) + KroneckerProductDiag(ds): ds = the factor diagonals (constf: every one a
                                                   ConstantDiagLinearOperator); eig = eigh oracle of the K_i (constf) resp. of the
                                                   D_i^-1/2 K_i D_i^-1/2 *)
-| DCholOf (upper : bool) (base : opd).         (* CholLinearOperator(base.cholesky(upper=upper), upper=upper): a solve routed
+| DCholOf (upper : bool) (base : opd)
+| DSumKron (fs1 fs2 : seq opd) (eig : seq (nat * mat * vec)).
+                                               (* kron fs1 + kron fs2 (SumKroneckerLinearOperator); eig = eigh oracle of the
+                                                  R_i^T A_i R_i, R_i the inverse root of the i-th factor of fs2 *)         (* CholLinearOperator(base.cholesky(upper=upper), upper=upper): a solve routed
                                                   through the factor operator cholesky() returns for the class of `base` *)
 
 Fixpoint cls_of (o : opd) : cls :=
@@ -528,6 +572,7 @@ Fixpoint cls_of (o : opd) : cls :=
   | DPerm p => CPermutation (size p)
   | DKronAddedKronDiag cf fs _ _ => CKronAddedDiag (map cls_of fs) (if cf then DKConst else DKDiag)
   | DCholOf _ b => CChol (csize (cls_of b))
+  | DSumKron _ fs2 _ => CSumKron (map cls_of fs2)
   end.
 
 (* the matrix an operator denotes (what to_dense() returns; used by the base-class _cholesky) *)
@@ -571,6 +616,10 @@ Fixpoint dense_of (o : opd) : mat :=
       let dfull := kron_evals A ds in                            (* _kron_diag of the factor diagonals *)
       mtab N N (fun i j => if i == j then aadd A (get A K i j) (vget A dfull i) else get A K i j)
   | DCholOf _ b => dense_of b                   (* R^T R = L L^T = the matrix of the base *)
+  | DSumKron fs1 fs2 _ =>
+      let: (N, K1) := kron_mats (map (fun f => (csize (cls_of f), dense_of f)) fs1) in
+      let: (_, K2) := kron_mats (map (fun f => (csize (cls_of f), dense_of f)) fs2) in
+      mtab N N (fun i j => aadd A (get A K1 i j) (get A K2 i j))
   end.
 
 Definition osize (o : opd) : nat := csize (cls_of o).
@@ -585,6 +634,15 @@ Definition dense_cholesky (s : settings) (n : nat) (M : mat) : option mat :=
   if n == 1 then
     let x := get A M 0 0 in Some [:: [:: asqrt A (if altb A x (a0 A) then a0 A else x)]]   (* clamp_min(0).sqrt() *)
   else psd_safe_chol A (cholesky_jitter_exp s) (cholesky_max_tries s) n M.
+
+(* lt.root_inv_decomposition().root of a dense PD matrix with the method _choose_root_method picks.
+   Cholesky: (L^-1)^T (size 1: 1 / sqrt); Lanczos (size above max_cholesky_size): not modelled - the listed defect *)
+Definition inv_root (s : settings) (n : nat) (M : mat) : option mat :=
+  if n == 1 then Some [:: [:: adiv A (a1 A) (asqrt A (get A M 0 0))]]
+  else match choose_root_method s n with
+       | RootCholesky => if dense_cholesky s n M is Some L then Some (tri_inv_t A n L) else None
+       | RootLanczos => None
+       end.
 
 Definition ohead (x : option cols) : vec := if x is Some (v :: _) then v else [::].
 
@@ -664,6 +722,11 @@ Fixpoint run_method (s : settings) (o : opd) (m : method) (X : cols) {struct o} 
       let mm := if bs is b :: _ then osize b else 0 in
       omap (block_solve A true k mm (map (fun b v => ohead (run_method s b m' [:: v])) bs)) X
   | MPermT, DPerm p => omap (perm_solve A p) X
+  | MSumKron _, DSumKron _ fs2 eig =>
+      let Rs := map (fun f => (osize f, inv_root s (osize f) (dense_of f))) fs2 in
+      if all (fun x => isSome x.2) Rs then
+        Some (sumkron_apply A (map (fun x => (x.1, if x.2 is Some R then R else [::])) Rs) eig (size X) X)
+      else None
   | _, _ => None
   end.
 
@@ -704,6 +767,16 @@ Definition alg_solve (s : settings) (o : opd) (right : cols) (left : option (nat
     end.
 
 End Alg.
+
+(* methods that run a symmetric eigen-decomposition: their arithmetic is carried out in settings._linalg_dtype_symeig,
+   so their answers are only as accurate as that dtype (Check.v widens the value tolerance accordingly) *)
+Fixpoint uses_symeig (m : method) : bool :=
+  match m with
+  | MEigShift _ | MEigKron _ _ | MSumKron _ => true
+  | MTriViaBase m' | MBlocks _ m' => uses_symeig m'
+  | MKronFactors ms => has uses_symeig ms
+  | _ => false
+  end.
 
 (* a SECOND solve on the same operator object.  Solve.forward rebuilds the operator from its representation
    tree on every call, so factorisations cached on the original object are not reused; only a class with its own
